@@ -6,7 +6,7 @@ Shape H on urwid.vterm.TermCanvas driven directly (stub widget):
                        chunking independence)
   part 2 faithfulness: BFS over the statement's VT100 subset with (emulator, reference) pairs, lock-step comparison
                        of glyphs, colours and cursor with mc/refs/vt_ref
-  part 3 scrollback  : k line feeds then scroll_buffer by every amount: the view is the expected window
+  part 3 scrollback  : k line feeds then scroll_buffer by every amount: the view is the expected window; line deletion / insertion / reverse index add nothing
 """
 from __future__ import annotations
 
@@ -434,6 +434,23 @@ def t_scrollback(task, ctx: Ctx):
         if sb != full[:screen_top]:
             ctx.violation("scrollback-order", "C15/scrollback-order/buffer", case0, f"scrollback holds {sb}, expected {full[:screen_top]}")
             continue
+        # only lines that scroll off the top are history: deleting / inserting lines and reverse index leave the scrollback as it is
+        # (a line leaving a scrolling region whose top margin is below the first row is kept by urwid and dropped by xterm: not judged)
+        for label, seq in (("delete-lines", b"\x1b[1;1H\x1b[2M"), ("delete-lines-mid", b"\x1b[2;1H\x1b[1M"), ("insert-lines", b"\x1b[1;1H\x1b[2L"), ("reverse-index", b"\x1b[1;1H\x1bM\x1bM")):
+            if h < 2 and label == "delete-lines-mid":
+                continue
+            ctx.count("evaluations")
+            t3 = TermCanvas(w, h, StubWidget())
+            for i in range(k):
+                t3.addstr(f"{i % 10}".encode() * min(w, 2) + b"\r\n")
+            try:
+                t3.addstr(seq)
+            except Exception as e:
+                ctx.violation("no-raise", f"C15/no-raise/scrollback/{label}/{exc_site(e)}", dict(case0, then=label), repr(e))
+                continue
+            sb3 = [b"".join(c[2] for c in row).decode() for row in t3.scrollback_buffer]
+            if sb3 != full[:screen_top]:
+                ctx.violation("scrollback-order", f"C15/scrollback-order/buffer/after-{label}", dict(case0, then=label), f"after {seq!r} the scrollback holds {sb3}, expected {full[:screen_top]} (nothing scrolled off the top)")
         for up_lines in range(0, screen_top + 3):
             for mode in ("lines", "half"):
                 tc.scroll_buffer(reset=True)
